@@ -19,12 +19,12 @@ Lemma check_remaining_sev_le s sev ds : fst (check_remaining s sev ds) <= sev.
 Proof.
   unfold check_remaining.
   destruct (eofb s); cbn [fst]; [lia|].
-  destruct (eofb (s_ws (s_clear s))); cbn [fst]; [lia|].
   destruct ds as [ds|].
-  - destruct (rest (s_ws (s_clear s))) as [|c r]; cbn [fst]; [lia|].
+  - destruct (sep_scan false false (rest s)) as [[|c r]|]; cbn [fst]; [lia| |apply greater_le_l].
     destruct (in_delims ds c); cbn [fst]; [lia|].
     destruct (skip_to_delim ds (c :: r)) as [d r'|r'|]; cbn [fst]; apply greater_le_l.
-  - destruct (good (s_ws (s_clear s))); cbn [fst]; [apply greater_le_l|lia].
+  - destruct (eofb (s_ws (s_clear s))); cbn [fst]; [lia|].
+    destruct (good (s_ws (s_clear s))); cbn [fst]; [apply greater_le_l|lia].
 Qed.
 
 (* ------------------------------------------------------------------ *)
@@ -81,14 +81,32 @@ Qed.
 Definition DELIMS : list byte := [44%N; 41%N].   (* ",)" *)
 
 (* no delimiter and no semicolon (the skipping loop of CheckRemainingInput stops at either) *)
-Definition clean (u : list byte) : Prop := forall c, In c u -> in_delims DELIMS c = false /\ N.eqb c 59 = false.
+Definition nodelim (u : list byte) : Prop := forall c, In c u -> in_delims DELIMS c = false /\ N.eqb c 59 = false.
+
+(* no solidus directly followed by an asterisk: no comment is opened (a comment is white space: the delimiters in it
+   are not the one that follows the value, see check_remaining_separator below) *)
+Fixpoint no_open (l : list byte) : bool :=
+  match l with
+  | a :: r => negb (N.eqb a 47 && match r with b :: _ => N.eqb b 42 | [] => false end) && no_open r
+  | [] => true
+  end.
+
+Definition clean (u : list byte) : Prop := nodelim u /\ no_open u = true.
 
 (* "the unread input is a delimiter-free remainder followed by d :: r" *)
 Definition Before (d : byte) (r : list byte) (l : list byte) : Prop :=
   exists u, clean u /\ l = u ++ d :: r.
 
 Lemma clean_tail c u : clean (c :: u) -> clean u.
-Proof. intros H x Hx. apply H. right. exact Hx. Qed.
+Proof.
+  intros [H1 H2]. split.
+  - intros x Hx. apply H1. right. exact Hx.
+  - cbn [no_open] in H2. apply andb_prop in H2. exact (proj2 H2).
+Qed.
+Lemma clean_nil : clean [].
+Proof. split; [intros x []|reflexivity]. Qed.
+Lemma clean_head c u : clean (c :: u) -> in_delims DELIMS c = false /\ N.eqb c 59 = false.
+Proof. intros [H _]. apply H. left. reflexivity. Qed.
 
 Lemma delim_not_space d : in_delims DELIMS d = true -> is_space d = false.
 Proof.
@@ -110,7 +128,7 @@ Lemma Before_skip_ws d r l :
   in_delims DELIMS d = true -> Before d r l -> Before d r (skip_ws l).
 Proof.
   intros Hd [u [Hu E]]. subst. induction u as [|c u IH]; cbn.
-  - rewrite (delim_not_space d Hd). exists []. split; [intros x []|reflexivity].
+  - rewrite (delim_not_space d Hd). exists []. split; [exact clean_nil|reflexivity].
   - destruct (is_space c).
     + apply IH. eapply clean_tail; eauto.
     + exists (c :: u). split; [exact Hu|reflexivity].
@@ -171,7 +189,30 @@ Lemma skip_to_delim_Before d r l :
 Proof.
   intros Hd [u [Hu E]]. subst. induction u as [|c u IH]; cbn [app skip_to_delim].
   - rewrite Hd. reflexivity.
-  - destruct (Hu c (or_introl eq_refl)) as [H1 H2]. rewrite H1, H2. apply IH. eapply clean_tail; eauto.
+  - destruct (clean_head c u Hu) as [H1 H2]. rewrite H1, H2. apply IH. eapply clean_tail; eauto.
+Qed.
+
+(* the separator scan on text that opens no comment only skips the white space in front *)
+Lemma delim_not_solidus d : in_delims DELIMS d = true -> N.eqb d 47 = false /\ N.eqb d 42 = false.
+Proof.
+  unfold in_delims, DELIMS. cbn. intros H.
+  repeat (apply orb_prop in H; destruct H as [H|H]); try discriminate;
+    apply N.eqb_eq in H; subst; split; reflexivity.
+Qed.
+
+Lemma sep_scan_clean_prefix u x r :
+  clean u -> is_space x = false -> N.eqb x 47 = false -> N.eqb x 42 = false ->
+  sep_scan false false (u ++ x :: r) = Some (skip_ws (u ++ x :: r)).
+Proof.
+  intros Hu Hs H47 H42. induction u as [|c u IH]; cbn [app sep_scan skip_ws].
+  - rewrite Hs, H47. reflexivity.
+  - destruct (is_space c) eqn:Ec.
+    + apply IH. eapply clean_tail; eauto.
+    + destruct (N.eqb c 47) eqn:E47; [|reflexivity].
+      destruct u as [|b u']; cbn [app].
+      * rewrite H42. reflexivity.
+      * destruct Hu as [_ Hn]. cbn [no_open] in Hn. rewrite E47 in Hn. cbn [andb] in Hn.
+        destruct (N.eqb b 42); [discriminate|reflexivity].
 Qed.
 
 (* CheckRemainingInput on a stream whose unread input is "Before d r":
@@ -184,14 +225,109 @@ Lemma check_remaining_Before d r s sev :
 Proof.
   intros Hd He HB. unfold check_remaining. rewrite He.
   assert (HB' : Before d r (skip_ws (rest s))) by (apply Before_skip_ws; assumption).
-  unfold s_ws, s_clear, good. cbn [eofb failb rest negb andb].
+  assert (Hsc : sep_scan false false (rest s) = Some (skip_ws (rest s))).
+  { destruct HB as [u [Hu Eu]]. rewrite Eu. destruct (delim_not_solidus d Hd) as [A B].
+    apply sep_scan_clean_prefix; auto. apply delim_not_space. exact Hd. }
+  rewrite Hsc.
   destruct (skip_ws (rest s)) as [|c l] eqn:E; [exfalso; eapply Before_nonempty; eauto|].
-  cbn [eofb rest].
   destruct (in_delims DELIMS c) eqn:Ec.
-  - cbn [snd rest eofb failb negb andb]. split; [|reflexivity].
+  - cbn [snd rest eofb failb negb andb good]. split; [|reflexivity].
     destruct HB' as [u [Hu Eu]]. destruct u as [|x u]; cbn in Eu; inversion Eu; subst; [reflexivity|].
-    rewrite (proj1 (Hu x (or_introl eq_refl))) in Ec. discriminate.
+    rewrite (proj1 (clean_head x u Hu)) in Ec. discriminate.
   - rewrite (skip_to_delim_Before d r (c :: l) Hd HB'). cbn. split; reflexivity.
+Qed.
+
+(* ------------------------------------------------------------------ *)
+(* (B') a comment between a value and its delimiter is white space      *)
+
+(* a separator: white space characters and closed comments, in any order and number *)
+Inductive sepitem : Set := SpI (c : byte) | CmI (body : list byte).
+
+(* the text of a comment holds no asterisk directly followed by a solidus *)
+Fixpoint has_close (l : list byte) : bool :=
+  match l with
+  | a :: r => (N.eqb a 42 && match r with b :: _ => N.eqb b 47 | [] => false end) || has_close r
+  | [] => false
+  end.
+
+Definition sep_ok (it : sepitem) : bool :=
+  match it with SpI c => is_space c | CmI b => negb (has_close b) end.
+Definition sep_item_bytes (it : sepitem) : list byte :=
+  match it with SpI c => [c] | CmI b => 47%N :: 42%N :: b ++ [42%N; 47%N] end.
+Definition sep_bytes (its : list sepitem) : list byte := flat_map sep_item_bytes its.
+
+Definition star_safe (star : bool) (body : list byte) : Prop :=
+  star = true -> match body with c :: _ => N.eqb c 47 = false | [] => True end.
+
+Lemma has_close_tail c b : has_close (c :: b) = false -> has_close b = false /\ star_safe (N.eqb c 42) b.
+Proof.
+  cbn [has_close]. intros H. apply orb_false_elim in H. destruct H as [H1 H2]. split; [exact H2|].
+  intros Hs. rewrite Hs in H1. cbn [andb] in H1. destruct b; [trivial|exact H1].
+Qed.
+
+Lemma comment_scan body tail : forall star,
+  has_close body = false -> star_safe star body ->
+  sep_scan true star (body ++ 42%N :: 47%N :: tail) = sep_scan false false tail.
+Proof.
+  induction body as [|c b IH]; intros star Hc Hs; cbn [app].
+  - cbn [sep_scan]. replace (star && N.eqb 42 47)%bool with false by (destruct star; reflexivity).
+    cbn [N.eqb Pos.eqb andb]. reflexivity.
+  - cbn [sep_scan]. destruct (has_close_tail c b Hc) as [Hc' Hs'].
+    replace (star && N.eqb c 47)%bool with false.
+    + apply IH; assumption.
+    + destruct star; [|reflexivity]. cbn [andb]. symmetry. apply Hs. reflexivity.
+Qed.
+
+Lemma comment_unclosed body : forall star,
+  has_close body = false -> star_safe star body -> sep_scan true star body = None.
+Proof.
+  induction body as [|c b IH]; intros star Hc Hs; cbn [sep_scan]; [reflexivity|].
+  destruct (has_close_tail c b Hc) as [Hc' Hs'].
+  replace (star && N.eqb c 47)%bool with false.
+  - apply IH; assumption.
+  - destruct star; [|reflexivity]. cbn [andb]. symmetry. apply Hs. reflexivity.
+Qed.
+
+Lemma star_safe_false body : star_safe false body.
+Proof. intros H. discriminate. Qed.
+
+Lemma sep_scan_separator its tail :
+  forallb sep_ok its = true -> sep_scan false false (sep_bytes its ++ tail) = sep_scan false false tail.
+Proof.
+  induction its as [|it its IH]; intros H; [reflexivity|].
+  cbn [forallb] in H. apply andb_prop in H. destruct H as [Hit Hits].
+  unfold sep_bytes. cbn [flat_map]. fold (sep_bytes its). rewrite <- app_assoc.
+  destruct it as [c|b]; cbn [sep_item_bytes sep_ok] in *.
+  - cbn [app sep_scan]. rewrite Hit. apply IH. exact Hits.
+  - cbn [app]. cbn [sep_scan]. change (is_space 47%N) with false. change (N.eqb 47 47) with true. change (N.eqb 42 42) with true.
+    cbn iota. rewrite <- app_assoc. cbn [app].
+    rewrite comment_scan; [apply IH; exact Hits| |apply star_safe_false].
+    destruct (has_close b); [discriminate|reflexivity].
+Qed.
+
+(* the value is followed by a separator and then a delimiter: the check ends at the delimiter and reports nothing *)
+Lemma check_remaining_separator its d r s sev :
+  forallb sep_ok its = true -> in_delims DELIMS d = true ->
+  eofb s = false -> rest s = sep_bytes its ++ d :: r ->
+  check_remaining s sev (Some DELIMS) = (sev, mkS (d :: r) false false).
+Proof.
+  intros Hits Hd He Hr. unfold check_remaining. rewrite He, Hr.
+  rewrite (sep_scan_separator its (d :: r) Hits).
+  destruct (delim_not_solidus d Hd) as [A B].
+  pose proof (sep_scan_clean_prefix [] d r clean_nil (delim_not_space d Hd) A B) as Hs. cbn [app] in Hs.
+  rewrite Hs. cbn [skip_ws]. rewrite (delim_not_space d Hd). rewrite Hd. reflexivity.
+Qed.
+
+(* a comment that is opened and never closed swallows the delimiter: that is reported as an error nothing recovers from *)
+Lemma check_remaining_unclosed_comment its body s sev :
+  forallb sep_ok its = true -> has_close body = false ->
+  eofb s = false -> rest s = sep_bytes its ++ 47%N :: 42%N :: body ->
+  check_remaining s sev (Some DELIMS) = (greater sev SEVERITY_INPUT_ERROR, mkS [] true true).
+Proof.
+  intros Hits Hb He Hr. unfold check_remaining. rewrite He, Hr.
+  rewrite (sep_scan_separator its _ Hits).
+  cbn [sep_scan]. change (is_space 47%N) with false. change (N.eqb 47 47) with true. change (N.eqb 42 42) with true.
+  cbn iota. rewrite (comment_unclosed body false Hb (star_safe_false body)). reflexivity.
 Qed.
 
 (* ReadInteger leaves the stream at the delimiter *)
@@ -433,30 +569,44 @@ Proof.
   repeat match goal with |- context [N.eqb c ?k] => destruct (N.eqb_spec c k); [lia|] end. reflexivity.
 Qed.
 
-(* token = optional sign, one or more digits; followed directly by a delimiter *)
-Lemma read_integer_accepts (sign : option bool) ds d r sev :
-  in_delims DELIMS d = true -> digits_of ds -> ds <> [] ->
+Lemma space_not_digit c : is_space c = true -> is_digit c = false.
+Proof. intros H. destruct (is_digit c) eqn:E; [|reflexivity]. rewrite (digit_not_space c E) in H. discriminate. Qed.
+
+Lemma sep_head_not_digit its d r :
+  forallb sep_ok its = true -> in_delims DELIMS d = true ->
+  exists c l, sep_bytes its ++ d :: r = c :: l /\ is_digit c = false.
+Proof.
+  intros Hits Hd. destruct its as [|[c|b] its]; cbn.
+  - exists d, r. split; [reflexivity|apply delim_not_digit; exact Hd].
+  - eexists _, _. split; [reflexivity|]. cbn in Hits. apply andb_prop in Hits. apply space_not_digit. exact (proj1 Hits).
+  - eexists _, _. split; [reflexivity|reflexivity].
+Qed.
+
+(* token = optional sign, one or more digits; followed by a separator (white space and comments, possibly none)
+   and a delimiter *)
+Lemma read_integer_accepts (sign : option bool) ds its d r sev :
+  in_delims DELIMS d = true -> digits_of ds -> ds <> [] -> forallb sep_ok its = true ->
   let v := digits_val ds 0 in
   let v' := match sign with Some true => - v | _ => v end in
   LONG_MIN <= v' <= LONG_MAX ->
   let sg := match sign with Some true => [45%N] | Some false => [43%N] | None => [] end in
-  read_integer (of_bytes (sg ++ ds ++ d :: r)) sev (Some DELIMS)
+  read_integer (of_bytes (sg ++ ds ++ sep_bytes its ++ d :: r)) sev (Some DELIMS)
   = (Some v', sev, mkS (d :: r) false false).
 Proof.
-  intros Hd Hds Hne v v' Hr sg. subst v v' sg.
+  intros Hd0 Hds Hne Hits v v' Hr sg. subst v v' sg.
   destruct ds as [|c0 ds0] eqn:Eds; [congruence|]. rewrite <- Eds in *.
   assert (Hc0 : is_digit c0 = true) by (apply Hds; subst; left; reflexivity).
-  assert (Htail : match d :: r with c :: _ => is_digit c = false | [] => True end)
-    by (apply delim_not_digit; exact Hd).
-  assert (Hcheck : check_remaining (mkS (d :: r) false false) sev (Some DELIMS) = (sev, mkS (d :: r) false false)).
-  { unfold check_remaining, s_ws, s_clear, good. cbn [eofb failb rest negb andb].
-    cbn [skip_ws]. rewrite (delim_not_space d Hd). cbn [eofb rest]. rewrite Hd. reflexivity. }
+  destruct (sep_head_not_digit its d r Hits Hd0) as [d1 [r1 [Etail Hnd]]].
+  assert (Hcheck : check_remaining (mkS (d1 :: r1) false false) sev (Some DELIMS) = (sev, mkS (d :: r) false false)).
+  { apply (check_remaining_separator its d r); auto; cbn [rest]; symmetry; exact Etail. }
+  rewrite Etail. clear Etail.
+  assert (Htail : match d1 :: r1 with c :: _ => is_digit c = false | [] => True end) by exact Hnd.
   unfold read_integer.
   destruct sign as [[|]|]; cbn [app].
   - (* minus *)
     unfold s_ws, of_bytes, s_read_long, good.
     cbn -[take_digits LONG_MIN LONG_MAX Z.leb Z.opp check_remaining greater].
-    rewrite (take_digits_app ds (d :: r) 0 0 Hds Htail).
+    rewrite (take_digits_app ds (d1 :: r1) 0 0 Hds Htail).
     destruct (0 + length ds)%nat eqn:El; [subst ds; cbn in El; discriminate|].
     match goal with |- context [(LONG_MIN <=? ?x) && (?x <=? LONG_MAX)] =>
       replace ((LONG_MIN <=? x) && (x <=? LONG_MAX)) with true
@@ -465,7 +615,7 @@ Proof.
   - (* plus *)
     unfold s_ws, of_bytes, s_read_long, good.
     cbn -[take_digits LONG_MIN LONG_MAX Z.leb Z.opp check_remaining greater].
-    rewrite (take_digits_app ds (d :: r) 0 0 Hds Htail).
+    rewrite (take_digits_app ds (d1 :: r1) 0 0 Hds Htail).
     destruct (0 + length ds)%nat eqn:El; [subst ds; cbn in El; discriminate|].
     match goal with |- context [(LONG_MIN <=? ?x) && (?x <=? LONG_MAX)] =>
       replace ((LONG_MIN <=? x) && (x <=? LONG_MAX)) with true
@@ -485,8 +635,8 @@ Proof.
     { unfold is_digit in Hc0. apply andb_prop in Hc0. destruct Hc0 as [H1 _]. apply N.leb_le in H1.
       apply N.eqb_neq. lia. }
     rewrite Hn45, Hn43. cbn [orb].
-    change (c0 :: ds0 ++ d :: r) with ((c0 :: ds0) ++ d :: r). rewrite <- Eds.
-    rewrite (take_digits_app ds (d :: r) 0 0 Hds Htail).
+    change (c0 :: ds0 ++ d1 :: r1) with ((c0 :: ds0) ++ d1 :: r1). rewrite <- Eds.
+    rewrite (take_digits_app ds (d1 :: r1) 0 0 Hds Htail).
     destruct (0 + length ds)%nat eqn:El; [subst ds; cbn in El; discriminate|].
     match goal with |- context [(LONG_MIN <=? ?x) && (?x <=? LONG_MAX)] =>
       replace ((LONG_MIN <=? x) && (x <=? LONG_MAX)) with true
@@ -556,15 +706,15 @@ Lemma semicolon_stops_recovery u r s sev :
   eofb s = false -> clean u -> u <> [] -> (forall c, In c u -> is_space c = false) -> rest s = u ++ 59%N :: r ->
   check_remaining s sev (Some DELIMS) = (greater sev SEVERITY_INPUT_ERROR, mkS (59%N :: r) false false).
 Proof.
-  intros He Hu Hne Hsp Hr. unfold check_remaining. rewrite He.
-  unfold s_ws, s_clear, good. cbn [eofb failb rest negb andb]. rewrite Hr.
+  intros He Hu Hne Hsp Hr. unfold check_remaining. rewrite He, Hr.
+  pose proof (sep_scan_clean_prefix u 59%N r Hu eq_refl eq_refl eq_refl) as Hs. unfold byte in *. rewrite Hs. clear Hs.
   destruct u as [|c u']; [congruence|].
   assert (Hc : is_space c = false) by (apply Hsp; left; reflexivity).
-  cbn [app skip_ws]. rewrite Hc. cbn [eofb rest].
-  destruct (Hu c (or_introl eq_refl)) as [H1 H2]. rewrite H1.
+  cbn [app skip_ws]. rewrite Hc.
+  destruct (clean_head c u' Hu) as [H1 H2]. rewrite H1.
   assert (E : forall v, clean v -> skip_to_delim DELIMS (v ++ 59%N :: r) = SkSemi r).
   { induction v as [|x v IH]; intros Hv; cbn [app skip_to_delim].
     - reflexivity.
-    - destruct (Hv x (or_introl eq_refl)) as [A B]. rewrite A, B. apply IH. eapply clean_tail; eauto. }
-  change (c :: u' ++ 59%N :: r) with ((c :: u') ++ 59%N :: r). rewrite (E (c :: u') Hu). reflexivity.
+    - destruct (clean_head x v Hv) as [A B]. rewrite A, B. apply IH. eapply clean_tail; eauto. }
+  specialize (E (c :: u') Hu). cbn [app] in E. unfold byte in *. rewrite E. reflexivity.
 Qed.
